@@ -182,16 +182,23 @@ func planAnchorRestore(p *Prog, in *inliner, plan *canonPlan, skipDecl map[*ast.
 			if !ok {
 				continue
 			}
+			reordered := false
 			if have.Name == want.Name && (have.Recv == "") == (want.Recv == "") && strings.TrimPrefix(have.Recv, "*") == strings.TrimPrefix(want.Recv, "*") {
-				present = true
-				break
+				// the same function with its parameters in another order (an unexported signature tidied up) is given
+				// the recorded order back; anything else of that name is the anchor as it stands
+				if have.Recv == want.Recv && !sameStrings(have.PTypes, want.PTypes) && sameStrings(sortedCopy(have.PTypes), sortedCopy(want.PTypes)) && sameStrings(have.RTypes, want.RTypes) && !ast.IsExported(have.Name) {
+					reordered = true
+				} else {
+					present = true
+					break
+				}
 			}
 			if skipDecl[f.Decl] || usedCand[f] {
 				continue
 			}
 			newName := !pinnedNames[have.Pkg+"."+have.Name]
 			flipped := have.Name == want.Name && (have.Recv == "") != (want.Recv == "")
-			if !newName && !flipped {
+			if !newName && !flipped && !reordered {
 				continue
 			}
 			if flipped && want.Recv != "" && have.Recv == "" {
@@ -1762,7 +1769,12 @@ func planParamWiden(p *Prog, in *inliner, plan *canonPlan, skipDecl map[*ast.Fun
 							return true
 						}
 						xt := pkg.TypesInfo.TypeOf(sel.X)
-						if xt == nil || types.TypeString(xt, qual) != want.PTypes[idx] || !isPlainOperand(sel.X) {
+						if xt == nil || !isPlainOperand(sel.X) {
+							good = false
+							return true
+						}
+						// (a field reached through a pointer to the recorded value type: the value is *X)
+						if types.TypeString(xt, qual) != want.PTypes[idx] && types.TypeString(xt, qual) != "*"+want.PTypes[idx] {
 							good = false
 							return true
 						}
@@ -1857,6 +1869,9 @@ func planParamWiden(p *Prog, in *inliner, plan *canonPlan, skipDecl map[*ast.Fun
 			pname += "_"
 		}
 		xt := info.TypeOf(ast.Unparen(c.calls[0].Args[c.idx]).(*ast.SelectorExpr).X)
+		if types.TypeString(xt, types.RelativeTo(pk.Types)) == "*"+want.PTypes[c.idx] {
+			xt = xt.(*types.Pointer).Elem()
+		}
 		typeText := types.TypeString(xt, func(o *types.Package) string {
 			if o == pk.Types {
 				return ""
@@ -1891,7 +1906,11 @@ func planParamWiden(p *Prog, in *inliner, plan *canonPlan, skipDecl map[*ast.Fun
 			a := call.Args[c.idx]
 			sel := ast.Unparen(a).(*ast.SelectorExpr)
 			fe := in.file(a.Pos())
-			fe.edits = append(fe.edits, textEdit{start: in.off(a.Pos()), end: in.off(a.End()), text: in.text(sel.X.Pos(), sel.X.End())})
+			xtext := in.text(sel.X.Pos(), sel.X.End())
+			if at := info.TypeOf(sel.X); at != nil && types.TypeString(at, types.RelativeTo(pk.Types)) == "*"+want.PTypes[c.idx] {
+				xtext = "*" + xtext
+			}
+			fe.edits = append(fe.edits, textEdit{start: in.off(a.Pos()), end: in.off(a.End()), text: xtext})
 		}
 		skipDecl[d] = true
 		plan.expanded = append(plan.expanded, "parameter widened: "+d.Name.Name+" "+pobj.Name()+" -> "+pname+"."+c.field+" (again)")
